@@ -139,7 +139,7 @@ func (fg *FG) call0(st *State, cc *ssa.CallCommon, in ssa.Instruction, resultOf 
 		args = append(args, fg.val(a))
 	}
 	// a contract specialised for the dynamic type of an interface argument: key<T>
-	if callee != nil {
+	if ckey != "" {
 		for _, a := range args {
 			if a.DynTy != nil {
 				k := ckey + "<" + types.TypeString(a.DynTy, func(p *types.Package) string { return p.Name() }) + ">"
